@@ -55,6 +55,12 @@ pub fn large_cfgs() -> Vec<LargeCfg> {
         v.push(LargeCfg { hint_rel: hint, tail_window: 3000, tail_free: vec![0, 1, 2, 50], head_used: 0, alias_bad: false });
         v.push(LargeCfg { hint_rel: hint, tail_window: 48, tail_free: vec![1, 3], head_used: 2, alias_bad: true });
     }
+    // hints far enough before the end that a scan in blocks cannot reach the end in one step, with everything from the
+    // hint to the last cluster in use (or only the very last one free): the scan has to run off the end and wrap
+    for (h, w) in [(-127i32, 200u32), (-128, 200), (-129, 200), (-200, 300), (-257, 300), (-1000, 1100)] {
+        v.push(LargeCfg { hint_rel: Some(h), tail_window: w, tail_free: vec![], head_used: 4, alias_bad: false });
+        v.push(LargeCfg { hint_rel: Some(h), tail_window: w, tail_free: vec![0], head_used: 0, alias_bad: false });
+    }
     v
 }
 
@@ -115,6 +121,25 @@ pub fn scripted_ops(cs: u32) -> Vec<Op> {
         Op::Stats,
         Op::Remount { how: 1 },
         Op::OpenFile { via: 0, path: "third".into(), keep: 0 },
+        // a file that starts in a high cluster is emptied (its entry must stop naming any cluster, high word included),
+        // reopened after a remount, and filled again from wherever the allocator is by then
+        Op::CreateFile { via: 0, path: "emptied later.bin".into(), keep: 1 },
+        Op::Write { h: 0, len: cs + 5, seed: 7 },
+        Op::CloseFile { h: 0 },
+        Op::Remount { how: 0 },
+        Op::OpenFile { via: 0, path: "emptied later.bin".into(), keep: 1 },
+        Op::Truncate { h: 0 },
+        Op::CloseFile { h: 0 },
+        Op::Stats,
+        Op::Remount { how: 1 },
+        Op::OpenFile { via: 0, path: "emptied later.bin".into(), keep: 1 },
+        Op::Read { h: 0, len: 10 },
+        Op::Write { h: 0, len: 2 * cs + 1, seed: 8 },
+        Op::CloseFile { h: 0 },
+        Op::Remount { how: 0 },
+        Op::OpenFile { via: 0, path: "emptied later.bin".into(), keep: 0 },
+        Op::Remove { via: 0, path: "emptied later.bin".into() },
+        Op::Stats,
     ]
 }
 
@@ -144,7 +169,7 @@ pub fn run(tier: Tier, seed: u64) -> i32 {
         let vol = large_vol(g, lcs[li].clone());
         let case = Case { vol: vol.clone(), ops: scripted_ops(vol.cluster_size()) };
         let out = hist::eval_case(hp_ref, &case);
-        blk.record(&out, || serde_json::json!({"vol": vol, "ops": "scripted (30 ops)"}));
+        blk.record(&out, || serde_json::json!({"vol": vol, "ops": "scripted (47 ops)"}));
         out.violation.map(|m| {
             let fails = |ops: &[Op]| hist::eval_case(hp_ref, &Case { vol: vol.clone(), ops: ops.to_vec() }).violation.is_some();
             let min = run::ddmin(&case.ops, &fails);
